@@ -260,6 +260,7 @@ def run(ctx: common.Ctx):
     # a second fusion record from the same donor breakpoint may only add peptides
     cv_checks.fusion_pairs(ctx, ctx.n(40, 600))
     cv_checks.fusion_dense_stream(ctx, ctx.n(48, 600))
+    cv_checks.circ_same_site_stream(ctx, ctx.n(90, 1000))
     n = ctx.n(30, 400)
     jobs = [(ctx.rng('rjob', i).randrange(1 << 30), ctx.tier) for i in range(n)]
     with mp.get_context('fork').Pool(14) as pool:
